@@ -129,6 +129,34 @@ def fits(sup, dx, eps=1e-6):
     return 'edge'
 
 
+def describe_cell(sup, occ_expected, ref):
+    """the property stated on one generated cell: perfect host (every host site holds its own species, interstitial
+    sublattice empty) + exactly the named defects; returns None when it holds, else a description for the replay"""
+    bad = {}
+    if not np.array_equal(sup.occ, occ_expected):
+        diff = [int(i) for i in np.nonzero(sup.occ != occ_expected)[0]]
+        bad['sites_differing'] = [dict(site=i, atom=[int(x) for x in sup.atomindices[i % sup.N]], found=int(sup.occ[i]),
+                                       expected=int(occ_expected[i]), perfect_host=int(ref[i])) for i in diff[:12]]
+        bad['number_of_sites_differing'] = len(diff)
+    counts = [len(l) for l in sup.chemorder]
+    want = [int(np.sum(occ_expected == c)) for c in range(len(sup.chemorder))]
+    if counts != want:
+        bad['atoms_per_chemistry'] = dict(found=counts, expected=want)
+    # defect list through the implementation's own census, against an independent one
+    exp = {}
+    for i in np.nonzero(occ_expected != ref)[0]:
+        c, host = int(occ_expected[i]), sup.atomindices[i % sup.N][0]
+        if host in sup.interstitial: nm = sup.chemistry[c] + '_i'
+        elif c == -1: nm = 'v_' + sup.chemistry[host]
+        else: nm = sup.chemistry[c] + '_' + sup.chemistry[host]
+        exp.setdefault(nm, set()).add(int(i))
+    got = {k: set(int(x) for x in v) for k, v in sup.defectindices().items()}
+    if got != exp:
+        bad['defects'] = dict(found={k: sorted(v) for k, v in got.items()}, expected={k: sorted(v) for k, v in exp.items()})
+    if not sup.__sane__(): bad['sane'] = False
+    return bad or None
+
+
 # ---------------------------------------------------------------- the oracles for one superdict
 def check_superdict(ctx, kind, name, calc, S, sd, warns, lines, checks):
     crys, chem = calc.crys, calc.chem
@@ -204,9 +232,10 @@ def check_superdict(ctx, kind, name, calc, S, sd, warns, lines, checks):
                 viol('state-defects-coincide-silent', 'two defects of a state tag fall on one site and no warning was issued', tag=tag)
             ctx.count('too-small:state-defects-coincide')
             continue
-        if not np.array_equal(sup.occ, occ) or not sup.__sane__():
-            viol('state-cell-wrong-defects', 'state cell does not contain exactly the defects named by its tag',
-                 tag=tag, occ=_j(sup.occ), expected=_j(occ), sane=bool(sup.__sane__()))
+        bad = describe_cell(sup, occ, ref)
+        if bad is not None:
+            viol('state-cell-wrong-defects', 'state cell is not the perfect host supercell plus exactly the defects named by its tag',
+                 tag=tag, **bad)
             continue
         lines.append('state ' + ','.join('%d:%d' % (i, val[t]) for (t, u), i in zip(defects, sites)))
         checks.append((dict(rep0, tag=tag), _cell(sup), 'state'))
@@ -293,9 +322,10 @@ def check_superdict(ctx, kind, name, calc, S, sd, warns, lines, checks):
                         'both endpoints are the same cell' if np.array_equal(s0.occ, s1.occ) else 'dx is not its own minimum image'),
                      tag=tag, dx=_j(dx), endpoints_identical=bool(np.array_equal(s0.occ, s1.occ)))
             continue
-        if not (np.array_equal(s0.occ, occ0) and np.array_equal(s1.occ, occ1) and s0.__sane__() and s1.__sane__()):
-            viol('transition-endpoint-wrong-defects', 'transition endpoints do not contain the defects named by the tag',
-                 tag=tag, occ0=_j(s0.occ), occ1=_j(s1.occ), expected0=_j(occ0), expected1=_j(occ1))
+        bad0, bad1 = describe_cell(s0, occ0, ref), describe_cell(s1, occ1, ref)
+        if bad0 is not None or bad1 is not None:
+            viol('transition-endpoint-wrong-defects', 'transition endpoints are not the perfect host supercell plus exactly the defects named by the tag',
+                 tag=tag, initial=bad0, final=bad1)
             continue
         # single moving atom, NEB ordering
         diffsites = [int(i) for i in np.nonzero(s0.occ != s1.occ)[0]]
@@ -425,6 +455,8 @@ def _run(ctx, nmat, maxsites, Nthermo_list=(1,)):
     lines, checks = [], []
     todo = [('I',) + z for z in c27zoo.interstitial_zoo(rng)] + [('V',) + z for z in c27zoo.vacancy_zoo(rng)]
     rng.shuffle(todo)
+    # hosts with several inequivalent Wyckoff positions per species are always exercised (first)
+    todo.sort(key=lambda z: 0 if (z[1] in c27zoo.MULTI_WYCKOFF or z[1] in ('omega', 'mono')) else 1)
     for kind, name, crys, chem in todo:
         if time.time() - t_start > (45 if ctx.quick else 1000): break
         Nth = rng.choice(Nthermo_list)
